@@ -79,7 +79,25 @@ func hostilePrefix(t *Tape, w []byte, spans []Span) ([]byte, string, bool) {
 	maxv := uint64(1)<<(8*uint(s.Len)) - 1
 	var v uint64
 	what := ""
-	switch t.Intn(5) {
+	switch t.Intn(8) {
+	case 5:
+		// a power of two somewhere in the prefix's range (wrap-arounds of count*width, limits
+		// that only catch the extremes)
+		sh := uint(1 + t.Intn(8*s.Len-1))
+		v, what = uint64(1)<<sh, fmt.Sprintf("2^%d", sh)
+		if t.Intn(2) == 0 && v > 1 {
+			v--
+			what += "-1"
+		}
+	case 6:
+		// moderate: larger than what is present, far below the maximum (a claim that fits state
+		// left by earlier, honest traffic)
+		v, what = uint64(256+t.Intn(65280)), "moderate"
+		if v > maxv {
+			v = maxv
+		}
+	case 7:
+		v, what = (maxv+1)/2+(maxv+1)/4, "three-quarter-range"
 	case 0:
 		v, what = maxv, "max"
 	case 1:
@@ -197,7 +215,30 @@ func unknownDiscriminator(t *Tape, w []byte, spans []Span) ([]byte, string, bool
 	}
 	out := cloneBytes(w)
 	seg := out[s.Off : s.Off+s.Len]
-	switch t.Intn(4) {
+	switch t.Intn(7) {
+	case 4:
+		// near miss of a registered textual key: what number parsers and trimmers treat specially
+		// (sign, blank, hex/exponent letters, NUL) in front of or among digits
+		b := t.Bulk()
+		for i := range seg {
+			seg[i] = byte('0' + b.intn(10))
+		}
+		seg[b.intn(len(seg))] = []byte{'-', '+', ' ', 'x', 'e', '.', 0, '_', 0x80}[b.intn(9)]
+		if b.intn(2) == 0 {
+			seg[0] = []byte{'-', '+', ' '}[b.intn(3)]
+		}
+	case 5:
+		// near miss of a registered numeric key: the registered value with one bit changed
+		seg[t.Intn(len(seg))] ^= 1 << uint(t.Intn(8))
+	case 6:
+		// extremes
+		v := []byte{0x00, 0x7F, 0x80, 0xFF}[t.Intn(4)]
+		for i := range seg {
+			seg[i] = v
+		}
+		if t.Intn(2) == 0 {
+			seg[0] ^= 0x80
+		}
 	case 0:
 		for i := range seg {
 			seg[i] = 0xFF
